@@ -4,11 +4,14 @@ import (
 	"bytes"
 	"encoding/json"
 	"fmt"
+	"io"
 	"strings"
+	"sync"
 	"sync/atomic"
 
 	"github.com/paulsonkoly/chess-3/board"
 	"github.com/paulsonkoly/chess-3/move"
+	"github.com/paulsonkoly/chess-3/search"
 	"github.com/paulsonkoly/chess-3/uci"
 
 	"verif/eng"
@@ -73,10 +76,39 @@ func c01ViaUCI(ld *eng.Loader, p *refchess.Pos, lm []refchess.Move) (string, str
 	return "", ""
 }
 
+var c01Searchers = sync.Pool{New: func() any { return search.New(32000) }}
+
+// c01SearchFilter runs a depth-1 search on b (= p) and checks the move it returns against the legal moves of p.
+func c01SearchFilter(b *board.Board, p *refchess.Pos) string {
+	s := c01Searchers.Get().(*search.Search)
+	s.Clear()
+	_, mv, _ := s.Go(b, search.WithDepth(1), search.WithOutput(io.Discard))
+	c01Searchers.Put(s)
+	var buf [256]refchess.Move
+	lm := p.LegalMoves(buf[:0])
+	if mv == 0 {
+		if len(lm) > 0 && p.Half < 100 {
+			return fmt.Sprintf("depth-1 search returns no move, %d legal moves exist", len(lm))
+		}
+		return ""
+	}
+	for _, m := range lm {
+		if m.Enc() == uint16(mv) {
+			return ""
+		}
+	}
+	return fmt.Sprintf("depth-1 search plays %s, which is not legal", eng.Name(uint16(mv)))
+}
+
 func c01Replay(class string, raw json.RawMessage) (bool, string) {
 	var c c01Case
 	if err := json.Unmarshal(raw, &c); err != nil {
 		return false, err.Error()
+	}
+	if c.How == "search" {
+		p := refchess.MustFEN(c.FEN)
+		msg := c01SearchFilter(eng.Load(&p), &p)
+		return msg != "", msg
 	}
 	if c.How == "uci" {
 		p := refchess.MustFEN(c.FEN)
@@ -212,7 +244,7 @@ func runC01(r *ev.Run) {
 		forClasses(r, pawnEP, universe.Opts{OnlySpecial: true, NoRights: true}, newW, visitSpecial)
 	}
 	r.Set("castling_subclasses", classNames(castling))
-	r.Set("moves_played_through_uci_position_command", viaUCI.Load())
+
 	r.Set("en_passant_subclasses", classNames(pawnEP))
 	if r.Thorough() {
 		// constrained 5-man classes: the lone side's king confined to the corner region
@@ -246,6 +278,25 @@ func runC01(r *ev.Run) {
 				return func() c01Case { return c01Case{FEN: root.FEN, Moves: w.PathStrings(), How: how} }
 			}
 			check(ms, w.B, p, mk("played"))
+			// nodes with promotions, en-passant captures or castling: every legal move also through the GUI's move path
+			if p.Half <= 100 {
+				var buf [256]refchess.Move
+				lm := p.LegalMoves(buf[:0])
+				for _, m := range lm {
+					k := p.Sq[m.From]
+					if k < 0 {
+						k = -k
+					}
+					if m.Promo != 0 || (k == refchess.King && (m.To-m.From == 2 || m.From-m.To == 2)) || (k == refchess.Pawn && m.To == p.Ep && (m.From&7) != (m.To&7)) {
+						viaUCI.Add(int64(len(lm)))
+						var ld2 eng.Loader
+						if mv, msg := c01ViaUCI(&ld2, p, lm); msg != "" {
+							r.Fail("uci-played", c01Case{FEN: p.FEN(), Moves: []string{mv}, How: "uci"}, "%s", msg)
+						}
+						break
+					}
+				}
+			}
 			if p.Half <= 100 { // the FEN parser's own clock domain ends at 100 (judged by C11, not here)
 				nb, err := ld.LoadText(w.B.FEN())
 				if err != nil {
@@ -270,10 +321,11 @@ func runC01(r *ev.Run) {
 	r.Set("u2_roots", len(roots))
 	r.Set("u2_depth", depth)
 	r.Set("u2_nodes", u2nodes.Load())
+	r.Set("moves_played_through_uci_position_command", viaUCI.Load())
 
 	// --- en-passant family: the position REACHED BY PLAYING a double push between 0-2 capturers, with both
 	// kings and one slider anywhere: the playable set after the push (en-passant captures included) must be the legal set
-	var epN atomic.Int64
+	var epN, rawEP atomic.Int64
 	epFamily(r, []int{int((r.Seed + 1) % 8), int((r.Seed + 4) % 8)}, ev.Pick(r, []int8{0, 4, -4, -5}, []int8{0, 3, 4, 5, -3, -4, -5, 2, -2}), func(ld *eng.Loader, pos *refchess.Pos, mm refchess.Move, child *refchess.Pos) {
 		if epN.Add(1)%int64(ev.Pick(r, 2, 1)) != 0 {
 			return
@@ -282,8 +334,20 @@ func runC01(r *ev.Run) {
 		b.MakeMove(move.Move(mm.Enc()))
 		ms := ld.Store()
 		check(ms, b, child, func() c01Case { return c01Case{FEN: pos.FEN(), Moves: []string{mm.String()}, How: "played"} })
+		// where the pushed pawn can be captured en passant only illegally, the same position as a FIDE-style FEN
+		// (target recorded although no legal capture exists): the generator-plus-filter set, and the search's own
+		// copy of the legality filter (a depth-1 search must come back with a legal move, or none if there is none)
+		if n := child.Normalized(); n.Ep != child.Ep {
+			b2 := ld.Load(child)
+			check(ms, b2, child, func() c01Case { return c01Case{FEN: child.FEN(), How: "fen"} })
+			rawEP.Add(1)
+			if msg := c01SearchFilter(b2, child); msg != "" {
+				r.Fail("search-filter", c01Case{FEN: child.FEN(), How: "search"}, "%s: %s", child.FEN(), msg)
+			}
+		}
 	})
 	r.Set("ep_family_positions", epN.Load())
+	r.Set("ep_family_fide_style_fens_also_searched", rawEP.Load())
 
 	// --- long reversible lines: positions reached by many moves (clocks far
 	// beyond 100, rights kept alive), playable set compared after every ply ---
